@@ -48,6 +48,7 @@ func Check() *core.Check {
 		Assumptions: []string{
 			"fixed-length, non-shared ArrayBuffers only (goja has no resizable buffers / SharedArrayBuffer)",
 			"a stored NaN may have any NaN encoding (NumericToRawBytes): the model adopts the observed payload after checking that it is a NaN",
+			"an op that reads back, through another element type or alignment, a NaN it stored itself ends the case inconclusive (the encoding is implementation-chosen and only adopted after the op)",
 			"comparators are consistent (total preorders), so the stable sort result is unique; comparator call counts are not compared, only that its first call happens for length >= 2",
 			"%TypedArray%.prototype.toLocaleString: only the exception class and 'returns a string' are compared",
 			"arguments handed to a species constructor by subarray() on an already detached receiver are not compared (ES2021 vs ES2024 differ)",
